@@ -81,7 +81,7 @@ RULE = (
 )
 SCOPE = {
     "quick": {"ENG_G": 17, "NTX": 900, "NWIN": 10, "NCOLL": 220, "NCW": 5, "ALLWIN_TX": 0, "ALLWIN_G": 0},
-    "thorough": {"ENG_G": 22, "NTX": 6000, "NWIN": 24, "NCOLL": 1500, "NCW": 10, "ALLWIN_TX": 600, "ALLWIN_G": 36},
+    "thorough": {"ENG_G": 22, "NTX": 3500, "NWIN": 24, "NCOLL": 900, "NCW": 10, "ALLWIN_TX": 400, "ALLWIN_G": 36},
 }
 FLOOR = {"quick": 600, "thorough": 2500}
 REQUIRED_MONITORS = ["twin.chromosome-answers", "twin.guid-supplied", "twin.guid-computed", "chunk.location", "chunk.sequence",
@@ -394,9 +394,9 @@ def _answers(ctx, kind, obj, extra_windows=()):
         put("cds_end", lambda: obj.cds_end)
         put("cds_size", lambda: obj.cds_size)
         put("cds_blocks", lambda: _blocks(obj.cds_location))
-        put("cds_frames", lambda: [f.value for f in obj.cds.frames])
-        put("cds_num_codons", lambda: obj.cds.num_codons)
-        put("cds_guid", lambda: str(obj.cds.guid))
+        put("cds_frames", lambda: [f.value for f in obj.cds.frames] if obj.cds is not None else None)
+        put("cds_num_codons", lambda: obj.cds.num_codons if obj.cds is not None else None)
+        put("cds_guid", lambda: str(obj.cds.guid) if obj.cds is not None else None)
     if kind == "cds":
         put("frames", lambda: [f.value for f in obj.frames])
         put("num_codons", lambda: obj.num_codons)
@@ -474,6 +474,8 @@ def _qual_parts(q):
 def _digest_rest(kind, o):
     """The strings a container class feeds into its computed guid AFTER the location (read from the object's public
     attributes, in the order of the digest_object call); used only to explain a guid difference (K8)."""
+    if kind not in ("gene", "fcoll", "coll"):
+        return None
     kids = str(sorted(str(x) for x in o.children_guids))
     if kind == "gene":
         return [str(o.gene_id), str(o.gene_symbol), str(o.gene_type), str(o.locus_tag), str(o.sequence_name)] + _qual_parts(o.qualifiers) + [kids]
